@@ -16,7 +16,7 @@ for try in 1 2 3; do
   if echo "$out" | grep -q "address already in use"; then sleep 7; continue; fi
   break
 done
-mkdir -p $target && cp $sd/demo_test.go $target/zz_demo_test.go
+mkdir -p $target && cp $(ls $sd/demo_test.go $sd/demo_test.go.txt 2>/dev/null | head -1) $target/zz_demo_test.go
 with=$(go test -p 1 -vet=off -count=1 -run "$runre" ./$target/ 2>&1 | tail -3 | grep -cE "^(FAIL|---\s*FAIL)")
 git apply -R $sd/patch.diff
 without=$(go test -p 1 -vet=off -count=1 -run "$runre" ./$target/ 2>&1 | tail -3 | grep -cE "^ok")
